@@ -280,6 +280,7 @@ def run(ctx):
     rule_copies(eng)
     rule_typed_labels(eng)
     rule_subscripts(eng)
+    rule_table_subscripts(eng)
     rule_subtractions(eng)
     rule_loops(eng)
     rule_nullable(eng)
@@ -1263,6 +1264,89 @@ def rule_subscripts(eng):
             res.check(ok, "C02-R3", key, c.get("loc"), "index `%s` guarded by size() > index" % want[:60],
                       "`%s[%s]` reads a byte at a data-dependent position without a live `size() > %s`: one byte past the payload is returned when the "
                       "payload ends exactly there" % (vec.split("->")[-1], canon(idx)[:50], canon(idx)[:50]))
+    return n
+
+
+def index_upper_bound(f, idx, fs, depth=0):
+    """Largest value the index expression can take (None = unknown): a constant, the range of its unsigned type, `x & m`, `x % k`, the smaller
+    arm bound of min(), or a live comparison `idx < K` / `idx <= K`."""
+    e0 = strip_all_casts(idx)
+    cv = const_value(e0)
+    if cv is not None:
+        return cv
+    best = None
+
+    def take(v):
+        nonlocal best
+        if v is not None and v >= 0:
+            best = v if best is None else min(best, v)
+    # the narrowest unsigned type the value passes through on its way to the subscript (implicit promotions widen, they never add range)
+    x = idx
+    for _ in range(6):
+        t = (x.get("t") or {}) if isinstance(x, dict) else {}
+        if t.get("k") in ("int", "bool", "enum") and not t.get("sg") and t.get("bits"):
+            take((1 << t["bits"]) - 1)
+        if isinstance(x, dict) and x.get("k") == "cast":
+            x = x["e"]
+        else:
+            break
+    if e0.get("k") == "bin" and depth < 3:
+        if e0["op"] == "&":
+            for side in (e0["l"], e0["r"]):
+                c = const_value(strip_all_casts(side))
+                if c is not None and c >= 0:
+                    take(c)
+        if e0["op"] == "%":
+            c = const_value(strip_all_casts(e0["r"]))
+            lt = (strip_all_casts(e0["l"]).get("t") or {})
+            if c and c > 0 and not lt.get("sg"):
+                take(c - 1)
+    want = facts.xcanon(f, idx)
+    for a in fs:
+        if a[0] != "cmp":
+            continue
+        for x2, y2, op in ((a[4], a[5], a[2]), (a[5], a[4], facts._flip_op(a[2]))):
+            if facts.xcanon(f, x2) == want:
+                c = const_value(strip_all_casts(y2))
+                if c is not None and op in ("<", "<=", "=="):
+                    take(c - 1 if op == "<" else c)
+    if depth < 2:
+        ex = strip_all_casts(facts.expand(f, idx))
+        if canon(ex) != canon(e0):
+            take(index_upper_bound(f, ex, fs, depth + 1))
+    return best
+
+
+def rule_table_subscripts(eng):
+    """C02-R3 (tables): `table[i]` on a C array of known extent (a local or static lookup table) in decode-reachable code reads inside the
+    table for every value the index can take: by its type's range, a mask, a modulus or a live comparison."""
+    fb, res = eng.fb, eng.res
+    n = 0
+    for f in eng.fns:
+        if not f.cfg_raw:
+            continue
+        for c in f.nodes():
+            if c.get("k") != "subscript":
+                continue
+            b = c["base"]
+            at = None
+            for _ in range(4):
+                t = (b.get("t") or {}) if isinstance(b, dict) else {}
+                if t.get("k") == "array":
+                    at = t
+                    break
+                if isinstance(b, dict) and b.get("k") == "cast":
+                    b = b["e"]
+                else:
+                    break
+            if at is None or not at.get("n"):
+                continue
+            n += 1
+            ub = index_upper_bound(f, c["idx"], eng.mf(f).at(c))
+            key = "%s:table@%s" % (f.name.replace(NS, ""), (c.get("loc") or "").split(":", 1)[-1])
+            res.check(ub is not None and ub < at["n"], "C02-R3", key, c.get("loc"), "index <= %s inside the %d-element table" % (ub, at["n"]),
+                      "`%s[%s]`: the table has %d elements but the index can be as large as %s — for input that drives it there the read lands behind "
+                      "the table and foreign bytes flow into the result" % (canon(b)[:40], canon(c["idx"])[:50], at["n"], "anything" if ub is None else ub))
     return n
 
 
